@@ -6,6 +6,7 @@ toolchain go1.23.5
 
 require (
 	github.com/anishathalye/porcupine v1.3.0
+	github.com/negasus/haproxy-spoe-go v1.0.5
 	github.com/rs/zerolog v1.31.0
 	lunar/engine v0.0.0
 	lunar/shared-model v0.0.0
@@ -41,8 +42,8 @@ require (
 	github.com/mattn/go-colorable v0.1.13 // indirect
 	github.com/mattn/go-isatty v0.0.20 // indirect
 	github.com/matttproud/golang_protobuf_extensions/v2 v2.0.0 // indirect
-	github.com/negasus/haproxy-spoe-go v1.0.5 // indirect
 	github.com/ohler55/ojg v1.26.1 // indirect
+	github.com/pkg/errors v0.9.1 // indirect
 	github.com/pkoukk/tiktoken-go v0.1.7 // indirect
 	github.com/prometheus/client_golang v1.17.0 // indirect
 	github.com/prometheus/client_model v0.5.0 // indirect
